@@ -25,6 +25,20 @@ Theorem C25_iff_partial :
                  cred_matches H pt (classify (upass usr)) p /\ permitted usr = true).
 Proof. exact validate_iff'. Qed.
 
+(* every store that the server's own write paths (SetUser, the DeleteUser builtin, the admin credential update,
+   the login-time upgrade) can produce from the empty store is well formed ... *)
+Theorem C25_reachable_wf : forall H ops, store_wf (build H ops).
+Proof. exact build_wf. Qed.
+
+(* ... so for those stores the first half of the property holds with no side condition *)
+Theorem C25_iff :
+  forall H pt ops u p, hash_laws H ->
+    (fst (validate H pt (build H ops) u p) = true <->
+     u <> [] /\ p <> [] /\
+     exists usr, In usr (build H ops) /\ lower (uname usr) = lower u /\
+                 cred_matches H pt (classify (upass usr)) p /\ permitted usr = true).
+Proof. exact validate_iff_reachable. Qed.
+
 (* ... and fails for a stored name that is not lower case: that user can never log in *)
 Theorem C25_mixed_case_refuted :
   forall H, hash_laws H ->
@@ -118,4 +132,17 @@ Example C25_nonvacuous_72 :
   fst (validate toy true (snd (validate toy true (ex72 71) [100] (repeat 97 71))) [100] (repeat 97 72)) = false /\
   fst (validate toy true (snd (validate toy true (ex72 71) [100] (repeat 97 71))) [100] (repeat 97 71)) = true /\
   fst (validate_old toy true (snd (validate_old toy true (ex72 72) [100] (repeat 97 72))) [100] (repeat 97 73)) = true.
+Proof. vm_compute. repeat split; congruence. Qed.
+
+(* "Carol" created through SetUser is stored as "carol" and logs in under any spelling; deleted through "CAROL" *)
+Definition ex_ops : list sop :=
+  [SSet [67;97;114;111;108] (bcrypt_gen toy [112;119]) [ego_logon];          (* SetUser Carol / pw *)
+   SSet [98;111;98] (sha toy [115;51]) [ego_root];
+   SLogin false [66;79;66] [115;51];                                        (* BOB / s3: upgrade *)
+   SChange [98;111;98] (bcrypt_gen toy [110;101;119])].
+Example C25_nonvacuous_reachable :
+  map uname (build toy ex_ops) = [[99;97;114;111;108]; [98;111;98]] /\
+  fst (validate toy false (build toy ex_ops) [67;65;82;79;76] [112;119]) = true /\
+  fst (validate toy false (build toy ex_ops) [98;111;98] [110;101;119]) = true /\
+  build toy (ex_ops ++ [SDelete [67;65;82;79;76]; SDelete [98;111;98]]) = [].
 Proof. vm_compute. repeat split; congruence. Qed.
